@@ -95,11 +95,11 @@ impl InputField {
         // but in the absence of an explicit name we apply the rule.
         if self.attr_name.is_none() {
             // The `r#` of a raw identifier is spelling, not part of the field's name.
-            self.attr_name = Some(
-                parent
-                    .rename_rule
-                    .apply_to_field(self.ident.unraw().to_string()),
-            );
+            self.attr_name = Some(crate::options::apply_rename_rule(
+                parent.rename_rule,
+                self.ident.unraw().to_string(),
+                true,
+            ));
         }
 
         // Determine the default expression for this field, based on three pieces of information:
